@@ -186,3 +186,11 @@ Theorem C01_exact_number_of_winners_for_every_accepted_file : forall A S (ZL : z
   nlen (electeds A s) = Z.min (cf_nseats cfg) (nlen (eligibles A s)).
 Proof. exact accepted_winners. Qed.
 Print Assumptions C01_exact_number_of_winners_for_every_accepted_file.
+
+Theorem C01_exact_number_of_winners_cfer_for_every_accepted_file : forall A S (ZL : zlike A S) cfg,
+  cf_method cfg = MWigm -> exact A = false -> 0 <= cf_nseats cfg -> cf_batch cfg = false ->
+  forall text p fuel s k, parse_file text = Ok p -> p_linesEq p = [] -> cf_nballots cfg = p_nBallots p ->
+  exec (@crashed A) fuel (count_cmd A cfg RCfer) (init_state A cfg (to_count_profile p)) = Some (s, k) -> k <> Abort ->
+  nlen (electeds A s) = Z.min (cf_nseats cfg) (nlen (eligibles A s)).
+Proof. exact accepted_winners_cfer. Qed.
+Print Assumptions C01_exact_number_of_winners_cfer_for_every_accepted_file.
